@@ -221,6 +221,8 @@ def check_c14(exe, tier, seed, verdict):
                           ["longprobe %s %d %s" % (kind, n, hx(ROOT + "/lg")) for n in dense[b:b + 40]]))
     for n in (6, 200, 254, 255, 256):
         cases.append(("filename-%d" % n, ["longname filename %d %s" % (n, hx(ROOT + "/ln%d" % n))]))
+    for n in (12, 200, 250, 251, 252, 253, 254, 255, 256):
+        cases.append(("mainname-%d" % n, ["longname mainname %d %s" % (n, hx(ROOT + "/lm%d" % n))]))
     for n in (8, 254, 255):
         cases.append(("dropins-%d" % n, ["longname dropins %d %s" % (n, hx(ROOT + "/ld%d" % n))]))
     for n in (200, 4093, 4094, 4095, 4096, 4097, 4098):
@@ -261,7 +263,7 @@ def check_c14(exe, tier, seed, verdict):
         verdict.violation("C14:%s:%s" % (e["kind"], e["api"].replace(" ", "")), {"kind": "long", "event": e, "spec": x["spec"]},
                           "%s of %d bytes through %s: %s, %d bytes came back, head intact %s, tail intact %s" % (e["kind"], e["len"], e["api"], e["rc"], e["out_len"], e["head_ok"], e["tail_ok"]))
     cov = {"evaluations": len(events), "distinct_nontrivial": nn,
-           "rule": "field kinds {value, quoted value, key, section name, continuation line, comment before, comment after, second definition joined under JOIN_SAME_ENTRIES} x lengths {EVERY length 1..%d and BUFSIZ-70..BUFSIZ+70%s, 2*BUFSIZ, 64 Ki, %s} through: econf_readFile, plain / extended getters, listings, econf_mergeFiles + getters, econf_writeFile + econf_readFile + getters, and the setters; file names of 6..256 bytes read directly and as drop-in; paths of 200 and PATH_MAX-3 .. PATH_MAX+2 bytes; option strings of 8 Ki .. 70 Ki. The field carries distinct head and tail markers; Envelope!TLong requires out_len = len and both markers (names beyond NAME_MAX / PATH_MAX: an error code, no crash). non-trivial = length >= BUFSIZ-2." % (330 if tier == "quick" else 1099, "" if tier == "quick" else ", around 2*BUFSIZ and 64 Ki", "1 Mi" if tier == "thorough" else "200000"),
+           "rule": "field kinds {value, quoted value, key, section name, continuation line, comment before, comment after, second definition joined under JOIN_SAME_ENTRIES} x lengths {EVERY length 1..%d and BUFSIZ-70..BUFSIZ+70%s, 2*BUFSIZ, 64 Ki, %s} through: econf_readFile, plain / extended getters, listings, econf_mergeFiles + getters, econf_writeFile + econf_readFile + getters, and the setters; file names of 6..256 bytes read directly and as drop-in; MAIN file names of 12..256 bytes (with suffix) through econf_readDirs, econf_readConfig and econf_readDirsHistory; paths of 200 and PATH_MAX-3 .. PATH_MAX+2 bytes; option strings of 8 Ki .. 70 Ki. The field carries distinct head and tail markers; Envelope!TLong requires out_len = len and both markers (names beyond NAME_MAX / PATH_MAX: an error code, no crash). non-trivial = length >= BUFSIZ-2." % (330 if tier == "quick" else 1099, "" if tier == "quick" else ", around 2*BUFSIZ and 64 Ki", "1 Mi" if tier == "thorough" else "200000"),
            "samples": events[:3], "exhaustive": True,
            "trusted_base": ["gcc ASan/UBSan", "TLC 1.8.0 (Envelope!TLong)", "drv.c longprobe/longname"]}
     return cov
